@@ -175,12 +175,6 @@ func (h *RealtimeHandler) HandleParticipantJoin(ctx context.Context, handleFrame
 		return nil
 	}
 
-	// Leave the current session only once the join request is known to be
-	// valid, so that a refused join does not change anything.
-	if h.currentParticipant != nil {
-		h.leaveSession()
-	}
-
 	if !ok {
 		session = models.NewSession(h.Sessions.NewID(), h.FrameDuration)
 		session.AppKey = h.appKey
@@ -202,7 +196,24 @@ func (h *RealtimeHandler) HandleParticipantJoin(ctx context.Context, handleFrame
 		SignedLatency: &models.SignedLatency{},
 	}
 
-	session.AddParticipant(participant)
+	// The session might have ended since it was looked up: its last
+	// participant can leave at any time.
+	if !session.Join(participant) {
+		respond.Send(&hagallpb.ErrorResponse{
+			Type:      hagallpb.MsgType_MSG_TYPE_ERROR_RESPONSE,
+			Timestamp: timestamppb.Now(),
+			RequestId: req.RequestId,
+			Code:      hagallpb.ErrorCode_ERROR_CODE_NOT_FOUND,
+		})
+		return nil
+	}
+
+	// Leave the current session only once the join is known to succeed, so
+	// that a refused join does not change anything.
+	if h.currentParticipant != nil {
+		h.leaveSession()
+	}
+
 	h.stopFrameHandling = session.HandleFrame(handleFrame)
 
 	respond.Send(&hagallpb.ParticipantJoinResponse{
@@ -1028,7 +1039,7 @@ func (h *RealtimeHandler) leaveSession() {
 	if h.stopFrameHandling != nil {
 		h.stopFrameHandling()
 	}
-	session.RemoveParticipant(participant)
+	sessionEnded := session.Leave(participant)
 
 	h.FeatureFlags.IfNotSet(featureflag.FlagDisableParticipantLeaveBroadcast, func() {
 		session.Broadcast(participant, &hagallpb.ParticipantLeaveBroadcast{
@@ -1039,7 +1050,7 @@ func (h *RealtimeHandler) leaveSession() {
 		})
 	})
 
-	if session.ParticipantCount() == 0 {
+	if sessionEnded {
 		// Here we use a context.Background to ensure the session to be deleted
 		// on the session discovery service (eg HDS).
 		h.Sessions.Remove(context.Background(), session)
